@@ -187,7 +187,7 @@ func initBuiltinOps(builtin *types.Package, conf *Config) {
 		name := xgoPrefix + op.name
 		tsig := NewTemplateSignature(tparams, nil, types.NewTuple(params...), results, false, tokFlag)
 		var tfn types.Object = NewTemplateFunc(token.NoPos, builtin, name, tsig)
-		if op.name == "Quo" { // func XGo_Quo(a, b untyped_bigint) untyped_bigrat
+		if op.name == "Quo" && conf.UntypedBigInt != nil { // func XGo_Quo(a, b untyped_bigint) untyped_bigrat
 			a := types.NewParam(token.NoPos, builtin, "a", conf.UntypedBigInt)
 			b := types.NewParam(token.NoPos, builtin, "b", conf.UntypedBigInt)
 			ret := types.NewParam(token.NoPos, builtin, "", conf.UntypedBigRat)
